@@ -176,6 +176,18 @@ PROPS["C05"] = {
     ],
 }
 
+PROPS["C06"] = {
+    "level": "model_checking",
+    "technique": "bounded exhaustive enumeration: every RSA-OAEP plaintext length from 0 to beyond the maximum per key size and the complete byte-mutation battery of ciphertexts judged by OpenSSL's decryption of the same bytes; plaintext alphabets and all operand pairs (incl. wrap-around) for the additively homomorphic schemes with sums checked by GMP; every ECIES plaintext length with every ciphertext/tag byte altered; ECDH/ECMQV keys against a KDF of the shared point computed by the reference group law; every (k, n) threshold with every share subset",
+    "level_text": "RSA-OAEP (768/1024-bit keys, thorough 2048): EVERY plaintext length 0..k-66 plus two beyond (must be refused) x byte patterns (all-00, all-FF, leading zero, counter): round trip, exact length, guard bytes, OpenSSL decrypts the library's ciphertext; for a fifth of the lengths the whole battery of mutated ciphertexts (one bit in every third byte, thorough every byte; 0, 1, N-1, N, c+N, length +-1): library verdict and plaintext = OpenSSL's. Paillier, generalised Paillier (s = 1, 2), subgroup Paillier, Rabin, Benaloh (EVERY residue for blocks 2, 3, 5, 251, 257; block value refused): decrypt(encrypt(m)) = m over {0, 1, 2, n-1, n-2, n/2+-1, 2^63..2^65, a fixed value}; cp_phpe_add on ALL ordered pairs of that alphabet incl. sums that wrap, expected (m1 + m2) mod n by GMP. ECIES on six curves: every plaintext length 0..66 (stride 5 except on the first curve in quick): round trip, every byte of body and tag altered => error, truncations, other / identity ephemeral point => error, too-short output buffers not written beyond capacity. ECDH / ECMQV on six curves, key lengths {1, 16, 32, 33, 64, 65}: both parties agree and the key equals KDF2-SHA-256 of the x-coordinate of the shared point computed with ref_ec.h; identity peer key refused. BF-IBE round trip per length 0..40, foreign identity key does not decrypt; BGN enc/dec in G1, G2, product and sum homomorphisms over [0,17)^2. Shamir sharing: every 1 <= k <= n <= 5, secrets {0, 1, q-1, random}: EVERY k-subset and every (k+1)-subset reconstructs, shares interpolate to the secret by GMP Lagrange, indexes distinct and non-zero; multiplication triples: c = ab and the protocol output x y mod q for x, y in {0, 1, q-1, random}.",
+    "level_note": "Trusted: OpenSSL (RSAES-OAEP decryption, SHA-256), GMP, reference group law. The shared-secret encoding follows the source (minimal-length x-coordinate, the 'BouncyCastle' quirk of ECIES). Not driven: SOK key agreement, Pedersen commitments, the PSI protocols, delegated pairing, pairing triples -- listed as not reached.",
+    "rule": "cases are (scheme, key size / curve, seed, plaintext spec); each runs its whole battery; states = configurations; transitions = verdicts judged.",
+    "assumptions": ["OpenSSL as independent implementation", "reference group law", "GMP"],
+    "jobs": [
+        {"name": "enc-w64", "world": "W64", "src": "props/C06_enc.c", "ldflags": ["-lcrypto"], "cflags": ["-Wno-deprecated-declarations"]},
+    ],
+}
+
 PROPS["C07"] = {
     "level": "model_checking",
     "technique": "exhaustive enumeration of complete byte-string spaces given to the real decoders in the tiny build (every string of length 0..2/3 for integers, every 2-byte string per prime, every 1- and 3-byte string and structured 5-byte strings per tiny curve, every short text x every radix), tag x length x coordinate alphabets at shipped sizes, against a reference validity predicate and canonical encoder written from the format definition",
